@@ -7,6 +7,7 @@ import (
 	"time"
 
 	"github.com/hedzr/logg/slog"
+	errorsv3 "gopkg.in/hedzr/errors.v3"
 
 	"verif/internal/scen"
 )
@@ -202,6 +203,8 @@ func (w *W) value(a *scen.Arg) any {
 			return &yError{w, a.S}
 		}
 		return errors.New(a.S)
+	case "stackerr":
+		return errorsv3.New(a.S) // an error carrying its own stack frame
 	case "nilerr":
 		var e error
 		return e
